@@ -198,6 +198,11 @@ def main():
         m["change"] = NOTES[name][0]
         m["needs_to_manifest"] = NOTES[name][1]
         m["breaks_property"] = m.get("property")
+        suffix = name.rsplit("-", 1)[-1]
+        m["origin"] = {"M1": "round 1: fresh sub-agent given only the property text", "M2": "round 1: fresh sub-agent given only the property text",
+                       "M3": "round 2: written by a fresh sub-agent (property text + list of earlier edits); the patch file was lost with a sandbox restore and was re-created by another sub-agent from the author's one-line description, with a new demonstration",
+                       "M4": "round 2: written by a fresh sub-agent (property text + list of earlier edits); the patch file was lost with a sandbox restore and was re-created by another sub-agent from the author's one-line description, with a new demonstration",
+                       "M5": "round 3: fresh sub-agent given only the property text and the list of earlier edits", "M6": "round 3: fresh sub-agent given only the property text and the list of earlier edits"}.get(suffix, "")
         with open(mp, "w") as f:
             json.dump(m, f, indent=1)
     # summary table
